@@ -297,6 +297,11 @@ func (in *Interp) external(cc *CallCtx, ret func(*State, []Val)) {
 			ret(cc.St, []Val{{K: KExpr, Key: cc.Recv.Key + "." + fn.Name() + "()", T: sig.Results().At(0).Type()}})
 			return
 		}
+		if cc.Recv != nil && cc.Recv.K == KNil {
+			// a nil address has neither form (documented: To4/To16 return nil)
+			ret(cc.St, []Val{{K: KNil, T: sig.Results().At(0).Type()}})
+			return
+		}
 		ret(cc.St, []Val{unknown})
 		return
 	}
@@ -472,6 +477,17 @@ func (in *Interp) convert(v Val, to, from types.Type, st *State) Val {
 			}
 		}
 	}
+	// string(nil slice) is ""; []byte("...") / []rune("...") is a fresh non-nil slice
+	if v.K == KNil {
+		if b, ok := to.Underlying().(*types.Basic); ok && b.Info()&types.IsString != 0 {
+			return Val{K: KConst, C: constant.MakeString(""), T: to}
+		}
+	}
+	if v.K == KConst && v.C.Kind() == constant.String {
+		if _, ok := to.Underlying().(*types.Slice); ok {
+			return Val{K: KNonNil, T: to}
+		}
+	}
 	switch v.K {
 	case KConst:
 		if v.C.Kind() == constant.Int {
@@ -494,6 +510,28 @@ func (in *Interp) convert(v Val, to, from types.Type, st *State) Val {
 	case KSym, KExpr, KLin, KObj, KNil, KNonNil, KAlloc, KSlice:
 		nv := v
 		nv.T = to
+		if v.K == KSym && isIntType(to) {
+			src := from
+			if src == nil || !isIntType(src) {
+				src = v.T
+			}
+			if src != nil && isIntType(src) {
+				if in.symOrigin == nil {
+					in.symOrigin = map[int]types.Type{}
+				}
+				if _, ok := in.symOrigin[v.Sym]; !ok {
+					in.symOrigin[v.Sym] = src
+				}
+				ob, osigned, _ := intBits(in.symOrigin[v.Sym])
+				tb, tsigned, _ := intBits(to)
+				preserving := (osigned == tsigned && tb >= ob) || (!osigned && tsigned && tb > ob)
+				if preserving {
+					nv.Reint = ""
+				} else {
+					nv.Reint = types.TypeString(to.Underlying(), nil)
+				}
+			}
+		}
 		return nv
 	}
 	return v
